@@ -118,6 +118,21 @@ Example partial_example :
   = PErr E_InvalidOperation [[97; 98]].
 Proof. vm_compute. reflexivity. Qed.
 
+(* maps and unpacking: `ab{% for k in {"x": 1} %}{{ k }}{% endfor %}{% set a, b = [1] %}cd` - the loop over the
+   map's keys wrote "x", then the unpacking `set` fails (one item for two targets): "ab" and "x" were written;
+   and `ab{% with (a, b) = {"p": 1, "q": 2} %}{{ b }}{{ 1 // 0 }}{% endwith %}`: a map unpacks into its keys *)
+Example partial_example_unpack :
+  run_partial (mkCfg Lenient [] false) 50
+    [SRaw [97; 98]; SFor (TVar 101) (EMap [(EConst (LStr [120]), EConst (LInt 1))]) None [SEmit (EVar 101)] None false;
+     SSet (TPair 102 103) (EList [EConst (LInt 1)]); SRaw [99; 100]]
+  = PErr E_CannotUnpack [[120]; [97; 98]] /\
+  run_partial (mkCfg Lenient [] false) 50
+    [SRaw [97; 98];
+     SWith [(TPair 102 103, EMap [(EConst (LStr [112]), EConst (LInt 1)); (EConst (LStr [113]), EConst (LInt 2))])]
+       [SEmit (EVar 103); SEmit (EBin OFloorDiv (EConst (LInt 1)) (EConst (LInt 0)))]]
+  = PErr E_InvalidOperation [[113]; [97; 98]].
+Proof. split; vm_compute; reflexivity. Qed.
+
 Print Assumptions run_partial_agrees.
 Print Assumptions render_to_sink_p_on_success.
 Print Assumptions sink_prefix_failing_render.
